@@ -68,6 +68,20 @@ def _build(eko, w, flags, mk, target):
     return state
 
 
+def _views(eko):
+    """the derived listings of the stored evolution points"""
+    return {"evolgrid": [(e[0], e[1]) for e in eko.evolgrid], "mu2grid": list(eko.mu2grid), "raw['mu2grid']": list(eko.raw["mu2grid"])}
+
+
+def _views_wrong(eko):
+    """None if every derived listing agrees with what iteration yields now, else a description."""
+    it = [(e[0], e[1]) for e in eko]
+    want = {"evolgrid": it, "mu2grid": [e[0] for e in it], "raw['mu2grid']": [e[0] for e in it]}
+    got = _views(eko)
+    bad = {k: (got[k], want[k]) for k in want if got[k] != want[k]}
+    return bad or None
+
+
 def _reference(kind, j, state, tags, tn, en):
     """Plain-dict reference: returns (D', Vlow, Vexact or None, ret spec)."""
     D = {i: (tags[i], s["e"]) for i, s in enumerate(state) if s["d"]}
@@ -236,6 +250,7 @@ def case_step(log, kind, err_all=False, readback=False):
             desc = "%s(%s) from state %s" % (kind, "" if j is None else "key%d%s" % (j, (", err=%s" % en) if kind == "set" else ""),
                                               " ".join("k%d:%s" % (i, "".join(c for c in "dcle" if s[c]) or "-") for i, s in enumerate(state)))
             kw = {"kind": kind, "j": j, "state": [[s["d"], s["c"], s["l"], s["e"]] for s in state], "en": en}
+            _views(eko)  # the derived listings are looked at before the operation ...
             got, exc = None, None
             try:
                 if kind == "set":
@@ -265,6 +280,13 @@ def case_step(log, kind, err_all=False, readback=False):
                 f_ret = _ret_formula(ret, got, exc, D, tags)
             v = prove_formula(f_ret, "%s: returns what the dict returns (%s)" % (desc, ret[0]))
             decide(v, key="%s:ret" % kind, replay=(MOD, "replay_step", dict(kw, aspect="ret")))
+            # ... and again after it: they must list what iteration lists now
+            try:
+                bad = _views_wrong(eko)
+            except Exception as e:  # noqa
+                bad = {"exception": repr(e)}
+            v = prove_formula(z3.BoolVal(not bad), "%s: evolgrid / mu2grid / raw, read before and after, list the points iteration yields" % desc)
+            decide(v, key="%s:derived" % kind, replay=(MOD, "replay_step", dict(kw, aspect="derived")))
             if kind == "reopen" and exc is None:
                 conj = []
                 for i in sorted(D):
@@ -511,6 +533,7 @@ def replay_step(point, kind, j, state, en, aspect):
         st = _build(eko, w, flags, lambda i, e: iofs.real_op(10 + i, e), j)
         tags = [10.0, 11.0, 12.0]
         D, V, D2, Vlow, Vex, ret = _reference(kind, j, st, tags, 99.0, en)
+        _views(eko)
         got, exc = None, None
         try:
             if kind == "set":
@@ -528,6 +551,11 @@ def replay_step(point, kind, j, state, en, aspect):
         def val(op):
             return (float(op.operator.flat[0]), op.error is not None)
 
+        if aspect == "derived":
+            bad = _views_wrong(eko)
+            if bad:
+                return {"detail": "%s, with evolgrid/mu2grid/raw read before: afterwards %s" % (what, "; ".join("%s lists %r but iteration yields %r" % (k, g, w) for k, (g, w) in bad.items()))}
+            return None
         if aspect == "ret":
             if kind in ("set", "del", "sync", "unload", "reopen"):
                 return {"detail": "%s raised %r" % (what, exc)} if exc is not None else None
